@@ -581,6 +581,10 @@ def log1p_(x):
     return log_(R.const(1) + _R(x))
 
 
+def expm1_(x):
+    return exp_(x) - R.const(1)
+
+
 def logaddexp_(a, b):
     return log_(exp_(a) + exp_(b))
 
